@@ -103,39 +103,6 @@ func c09(r *Report) {
 
 	r.Guard("C09.R2", "a frame is emitted only when it fits both windows, and both windows are then reduced by its flow-controlled size", func() {
 		initialWindowRules(r)
-		// a stream seen for the first time starts with exactly the receiver's current initial
-		// window size, whatever it is (zero included: SETTINGS_INITIAL_WINDOW_SIZE=0 means
-		// "send nothing until I say so")
-		if obf := r.Use("h2", "relay.outputBuffer"); obf != nil {
-			n := 0
-			for _, a := range allocsOf(obf, M+"/h2.outputBuffer") {
-				for _, st := range litFieldStores(a)["windowSize"] {
-					n++
-					exact := true
-					for _, l := range resolveAll(st.Val) {
-						l = unwrapConv(l)
-						okLeaf := false
-						if ld, isLd := l.(*ssa.UnOp); isLd && ld.Op == token.MUL {
-							if fa, isFa := ld.X.(*ssa.FieldAddr); isFa && fieldObj(fa).Name() == "initialWindowSize" {
-								okLeaf = true
-							}
-						}
-						if c, isC := l.(*ssa.Call); isC && strings.HasPrefix(calleeName(c), "sync/atomic.Load") {
-							if fa, isFa := c.Call.Args[0].(*ssa.FieldAddr); isFa && fieldObj(fa).Name() == "initialWindowSize" {
-								okLeaf = true
-							}
-						}
-						if !okLeaf {
-							exact = false
-						}
-					}
-					r.Decide("flow", "(*M/h2.relay).outputBuffer: a new stream's window is the current initial window size", exact, "windowSize = int(r.initialWindowSize), nothing else", "a new stream's window can be something other than the receiver's current SETTINGS_INITIAL_WINDOW_SIZE (a default substituted for zero, a constant): the relay sends DATA the receiver has not granted", st.Pos())
-				}
-			}
-			if n == 0 {
-				r.Undecided("(*M/h2.relay).outputBuffer: initial stream window", "UNRESOLVED: no outputBuffer literal with windowSize")
-			}
-		}
 		sps, okFit := windowFitRules(r, emit)
 		if !okFit {
 			return
@@ -333,6 +300,30 @@ func c09(r *Report) {
 // attempt (shared by C09.R4 and C08.R8).
 func flowWakeRules(r *Report) {
 	w := r.W
+	// every WINDOW_UPDATE is applied: updateWindow adds the increment to a window on every path
+	// (an update for a stream the relay holds no buffer for yet is credit the receiver granted all
+	// the same; dropped, the data that arrives later waits for ever)
+	if uw := w.Fn("h2", "relay.updateWindow"); uw != nil && uw.Blocks != nil {
+		r.Touch(uw)
+		g := G(uw)
+		isAdd := func(i ssa.Instruction) bool {
+			st, ok := i.(*ssa.Store)
+			if !ok {
+				return false
+			}
+			fa, isFa := st.Addr.(*ssa.FieldAddr)
+			return isFa && (fieldObj(fa).Name() == "windowSize" || fieldObj(fa).Name() == "connectionWindowSize")
+		}
+		p := g.PathTo([]ssa.Instruction{g.Entry()}, true, isAdd, isReturn)
+		r.Decide("path", "(*M/h2.relay).updateWindow applies the increment on every path", p == nil, "a store to a window lies on every path to the return", "updateWindow can return without adding the increment to a window (an update for a stream without a buffer yet, an overflow check): credit the receiver granted is lost, and the data queued later for that stream is never sent", uw.Pos())
+	}
+	// the relay accepts whatever frame size the endpoints negotiated between themselves: it forwards
+	// their SETTINGS verbatim, so it must not cap what its own framers read
+	for _, f := range w.Funcs("h2") {
+		for _, c := range calls(f, "(*"+pHTTP2+".Framer).SetMaxReadFrameSize") {
+			r.Fail("callgraph", fnName(f)+": "+site(f, c)+" caps the frames the relay reads", "once an endpoint raises SETTINGS_MAX_FRAME_SIZE (which the relay forwards) its peer may send larger frames; a capped framer answers them with a connection error and the session is dropped", nil, c.Pos())
+		}
+	}
 	// a frame put on a stream's queue is followed by an emission attempt: without it a
 	// HEADERS or RST_STREAM frame waits until some window update happens to arrive
 	{
@@ -1015,6 +1006,13 @@ func chunkingRules(r *Report) {
 	if f == nil {
 		return
 	}
+	// a header block, however short, is at least one frame: a chunk is appended on every path
+	{
+		g := G(f)
+		isApp := func(i ssa.Instruction) bool { _, y := isBuiltinCall(i, "append"); return y }
+		p := g.PathTo([]ssa.Instruction{g.Entry()}, true, isApp, isReturn)
+		r.Decide("path", "M/h2.splitIntoChunks returns at least one chunk", p == nil, "an append lies on every path to the return", "an empty header block (a block that only updates the HPACK table size) yields no chunk: no HEADERS frame is written for it and its END_STREAM is never delivered", f.Pos())
+	}
 	var mks []*ssa.MakeSlice
 	for _, in := range instrs(f) {
 		if mk, ok := in.(*ssa.MakeSlice); ok && mk.Type().String() == "[]byte" {
@@ -1130,6 +1128,55 @@ func allStoresInto(a *ssa.Alloc) []*ssa.Store {
 func initialWindowRules(r *Report) {
 	w := r.W
 	_ = w
+	// a stream seen for the first time starts with exactly the receiver's current initial
+	// window size, whatever it is (zero included: SETTINGS_INITIAL_WINDOW_SIZE=0 means
+	// "send nothing until I say so")
+	if obf := r.Use("h2", "relay.outputBuffer"); obf != nil {
+		n := 0
+		for _, a := range allocsOf(obf, M+"/h2.outputBuffer") {
+			for _, st := range litFieldStores(a)["windowSize"] {
+				n++
+				exact := true
+				for _, l := range resolveAll(st.Val) {
+					l = unwrapConv(l)
+					okLeaf := false
+					if ld, isLd := l.(*ssa.UnOp); isLd && ld.Op == token.MUL {
+						if fa, isFa := ld.X.(*ssa.FieldAddr); isFa && fieldObj(fa).Name() == "initialWindowSize" {
+							okLeaf = true
+						}
+					}
+					if c, isC := l.(*ssa.Call); isC && strings.HasPrefix(calleeName(c), "sync/atomic.Load") {
+						if fa, isFa := c.Call.Args[0].(*ssa.FieldAddr); isFa && fieldObj(fa).Name() == "initialWindowSize" {
+							okLeaf = true
+						}
+					}
+					if !okLeaf {
+						exact = false
+					}
+				}
+				r.Decide("flow", "(*M/h2.relay).outputBuffer: a new stream's window is the current initial window size", exact, "windowSize = int(r.initialWindowSize), nothing else", "a new stream's window can be something other than the receiver's current SETTINGS_INITIAL_WINDOW_SIZE (a default substituted for zero, a constant): the relay sends DATA the receiver has not granted", st.Pos())
+			}
+		}
+		if n == 0 {
+			r.Undecided("(*M/h2.relay).outputBuffer: initial stream window", "UNRESOLVED: no outputBuffer literal with windowSize")
+		}
+	}
+	// both windows of a new relay start at the protocol's 65535 (the connection window is not
+	// affected by SETTINGS, only by WINDOW_UPDATE on stream 0)
+	if nr := r.W.Fn("h2", "newRelay"); nr != nil && nr.Blocks != nil {
+		r.Touch(nr)
+		for _, a := range allocsOf(nr, M+"/h2.relay") {
+			fs := litFieldStores(a)
+			for _, fld := range []string{"connectionWindowSize", "initialWindowSize"} {
+				ok := len(fs[fld]) == 1
+				if ok {
+					k, isK := constInt(unwrapConv(fs[fld][0].Val))
+					ok = isK && k == 65535
+				}
+				r.Decide("table", "M/h2.newRelay: "+fld+" starts at 65535", ok, "the RFC 7540 default", "a new relay starts with another "+fld+" than the 65535 octets every HTTP/2 receiver grants initially: the relay sends more on a fresh connection (or stream) than the receiver allowed, or stalls short of it", a.Pos())
+			}
+		}
+	}
 	// SETTINGS_INITIAL_WINDOW_SIZE moves every open stream's window by (new - old), and an
 	// update adds its increment: the operators and their operand order
 	if ui := r.Use("h2", "relay.updateInitialWindowSize"); ui != nil {
